@@ -113,7 +113,8 @@ class BRD:
         out = np.empty((ts_length, self.num_actions), dtype=int)
         random_state = check_random_state(random_state)
         player_ind_seq = rng_integers(random_state, self.N, size=ts_length)
-        action_dist = np.asarray(init_action_dist)
+        # Work on a copy: the caller's array must not be overwritten
+        action_dist = np.array(init_action_dist)
         for t in range(ts_length):
             out[t, :] = action_dist[:]
             action = np.searchsorted(action_dist.cumsum(), player_ind_seq[t],
